@@ -1,6 +1,7 @@
 """Length-only abstractions of byte strings.
 
-LenSeq  -- a data set of which only the length matters: supports len, truth, slicing, bytes + LenSeq; remembers the
+LenSeq  -- a data set of which only the length matters: supports len, truth, slicing, bytes + LenSeq, LenSeq + the piece
+           that follows it; remembers the
            offset of every slice in the original so that contiguity/coverage can be asserted.  Lengths and offsets
            may be symbolic integers of unbounded magnitude.
 AbsBytes -- a window [start, stop) of a *concrete* byte stream whose only symbolic parts are the window bounds (how
@@ -68,6 +69,14 @@ class LenSeq(bytes):
         raise api.HarnessUnsupported('LenSeq index')
 
     def __add__(self, other):
+        # two pieces of the same source that follow each other (a byte read ahead and carried over + the next read)
+        if isinstance(other, LenSeq) and not other.prefix and other.src == self.src:
+            if self.off + self.n == other.off:
+                return LenSeq(self.n + other.n, self.off, self.src, prefix=self.prefix)
+            if other.n == 0:
+                return self
+            if self.n == 0 and not self.prefix:
+                return other
         raise api.HarnessUnsupported('LenSeq + x')
 
     def __radd__(self, other):
